@@ -4,7 +4,7 @@ import os
 from .. import core
 
 DEVS = ["D_KeepParams", "D_KeepData", "D_KeepErrors", "D_KeepIndex", "D_KeepWriter", "D_KeepResp", "D_KeepReq"]
-MUTS = {"set", "params", "error", "abort", "write", "resp", "req", "hijack", "query", "delegate"}
+MUTS = {"set", "params", "error", "abort", "write", "resp", "req", "hijack", "query", "delegate", "sethandlers", "renderfail"}
 
 
 def pcfg(kinds, maxhist, maxmut, emit=True, **dev):
@@ -27,7 +27,7 @@ def run(chk):
         def cb(o):
             fo.write(json.dumps(o, separators=(",", ":")))
             fo.write("\n")
-        for kinds, name in ((["static", "dynamic", "optional", "notfound", "notallowed", "panic", "foreign"], "no hook"),
+        for kinds, name in ((["static", "dynamic", "optional", "render", "notfound", "notallowed", "panic", "foreign"], "no hook"),
                             (["static", "dynamic", "notfound", "panichook"], "OnPanic hook")):
             res = core.run_tlc("MC_Pool", cfg_text=pcfg(kinds, 3, 1 if not thorough else 2), timeout=1800, keep_lines=False, line_cb=cb)
             chk.expect_holds(res, "Pristine (%s)" % name)
